@@ -18,7 +18,8 @@ PROPERTY = "C04"
 LEVEL = "model_checking"
 SPF = "signac_statepoint.json"
 
-OLD = [{"a": 1}, {"a": 1, "b": 2}, {"a": 1, "c": {"d": 1}}, {"a": 1, "l": [1, 2]}]
+OLD = [{"a": 1}, {"a": 1, "b": 2}, {"a": 1, "c": {"d": 1}}, {"a": 1, "l": [1, 2]},
+       {"a": 1, "n": None, "z": 0, "f": False, "e": "", "el": [], "em": {}}]
 EDITS = [
     ("set", "b", 2), ("set", "a", 1), ("set", "a", 1.0), ("set", "a", True), ("set", "a", 7), ("setattr", "b", 3),
     ("del", "b"), ("del", "a"), ("del", "zz"),
@@ -27,6 +28,9 @@ EDITS = [
     ("assign", {"a": 2}), ("assign", {"a": 1.0}), ("assign", "same"), ("assign", {"a": 1, "b": 2}),
     ("update", {"b": 2}, False), ("update", {"a": 5}, False), ("update", {"a": 5}, True), ("update", {"a": 1.0}, False),
     ("update", {"a": 1, "z": 0}, False), ("update", {"c": {"d": 9}}, True),
+    ("update", {"n": 5}, False), ("update", {"z": 7}, False), ("update", {"f": True}, False), ("update", {"e": "x"}, False),
+    ("update", {"el": [1]}, False), ("update", {"em": {"k": 1}}, False), ("update", {"n": None}, False), ("update", {"n": 5}, True),
+    ("set", "n", 0), ("del", "n"),
     ("move",), ("clone",),
 ]
 DESTS = ["absent", "initialised", "handle_only", "empty_dir"]
